@@ -17,6 +17,22 @@ def rand_unitary(rng):
         out += [z.real, z.imag]
     return out
 
+def structured_unitaries(rng):
+    """exact 2x2 unitaries with exact zeros / real / imaginary entries: diagonal (U00 != 1), anti-diagonal, real, plus
+    diagonal and anti-diagonal ones with generic phases (a fast path for a special shape must still apply the whole matrix)"""
+    e = lambda t: cmath.exp(1j * t)
+    a, b = rng.uniform(-3, 3), rng.uniform(-3, 3)
+    ms = [[-1j, 0, 0, 1j], [-1, 0, 0, 1], [1j, 0, 0, 1], [-1, 0, 0, -1], [1, 0, 0, -1j], [e(a), 0, 0, e(b)],
+          [0, 1, 1, 0], [0, -1j, 1j, 0], [0, 1j, 1j, 0], [0, -1, 1, 0], [0, e(a), e(b), 0],
+          [0.6, 0.8, -0.8, 0.6], [0.6, 0.8j, 0.8j, 0.6], [0.8, -0.6, 0.6, 0.8]]
+    out = []
+    for m in ms:
+        o = []
+        for z in m:
+            z = complex(z); o += [z.real, z.imag]
+        out.append([float2bits(x) for x in o])
+    return out
+
 SPECIAL_ANGLES = [0.0, math.pi, -math.pi, 2 * math.pi, -2 * math.pi, 4 * math.pi, -4 * math.pi, 3 * math.pi, 6 * math.pi, 8 * math.pi,
                   math.pi / 2, -math.pi / 2, math.pi / 4, 3 * math.pi / 2, 1e-300, 1e-9, 1e300, -0.0, 4.0, 1.0, 720.0]
 
@@ -40,6 +56,14 @@ def rand_vec(rng, n, style):
         return [float2bits(rng.uniform(-1, 1) * 1e-9) for _ in range(2 * dim)]
     if style == "mixed":            # amplitudes of order 1 next to amplitudes of order 1e-9
         return [float2bits(rng.uniform(-1, 1) * (1e-9 if rng.random() < 0.5 else 1.0)) for _ in range(2 * dim)]
+    if style == "axis":             # exact zeros next to purely real, purely imaginary and generic amplitudes
+        v = []
+        for _ in range(dim):
+            c = rng.random()
+            x, y = rng.uniform(-1, 1), rng.uniform(-1, 1)
+            v += [0.0, 0.0] if c < 0.35 else [x, 0.0] if c < 0.55 else [0.0, y] if c < 0.8 else [x, y]
+        if not any(v): v[-1] = 0.7
+        return [float2bits(x) for x in v]
     if style == "spike":            # one nonzero amplitude, generic phase
         k = rng.randrange(dim)
         v = [0.0] * (2 * dim)
